@@ -168,7 +168,10 @@ LENLESS = ['bin', 'hex', 'oct', 'bits', 'bytes', 'u', 'i', 'pad']
 LISTS = [("'u2, bin1'", ['u2', 'bin1'], {}), ("[1, 'u2']", [1, 'u2'], {}), ("[-1]", [-1], {}), ("[0]", [0], {}), ("'bits, u2'", ['bits', 'u2'], {}),
          ("'ue, se'", ['ue', 'se'], {}), ("'pad1, bool'", ['pad1', 'bool'], {}), ("'u:n', n=2", ['u2'], {}), ("'u:n', n=9", ['u9'], {}),
          ("'hex, u3'", ['hex', 'u3'], {}), ("'bits, ue'", ['bits', 'ue'], {}), ("['bin', 'bool']", ['bin', 'bool'], {}), ("'2*u1, bits'", ['u1', 'u1', 'bits'], {}),
-         ("'bool, uie, bytes'", ['bool', 'uie', 'bytes'], {}), ("[3, -2]", [3, -2], {}), ("'bits:1, sie'", ['bits1', 'sie'], {})]
+         ("'bool, uie, bytes'", ['bool', 'uie', 'bytes'], {}), ("[3, -2]", [3, -2], {}), ("'bits:1, sie'", ['bits1', 'sie'], {}),
+         # one-shot iterables and Dtype objects as the format
+         ("(x for x in ['u1', 'bin2'])", ['u1', 'bin2'], {}), ("iter([1, 2])", [1, 2], {}), ("[Dtype('u2'), Dtype('bool')]", ['u2', 'bool'], {}),
+         ("(Dtype(t) for t in ('u1', 'u2'))", ['u1', 'u2'], {}), ("map(str, ['u2', 'bin1'])", ['u2', 'bin1'], {}), ("('u1', 'u1')", ['u1', 'u1'], {})]
 
 
 def menu_events(st, menu, _cls):
@@ -200,7 +203,7 @@ def build_menu(d, p, cls, menu):
         A(Event('read', ('tok', 'u3'), "s.read(Dtype('u3'))", False))
         A(Event('read', ('tok', 'ue'), "s.read(Dtype('ue'))", False))
         A(Event('read', ('tok', 'bytes1'), "s.read(Dtype('bytes', 1))", False))
-    for src, items, kw in (LISTS if full else LISTS[:3] + LISTS[5:6]):
+    for src, items, kw in (LISTS if full else LISTS[:3] + LISTS[5:6] + LISTS[16:17]):
         A(Event('readlist', tuple(items), f"s.readlist({src})", src in ('[-1]', '[0]', '[3, -2]')))
         if full or src == "'u2, bin1'":
             A(Event('peeklist', tuple(items), f"s.peeklist({src})", True))
@@ -233,6 +236,8 @@ def build_menu(d, p, cls, menu):
     news = [("s.copy()", 'same'), ("s[:]", 'same'), ("s[1:3]", 'slice13'), ("s + '0b1'", 'plus1'), ("s * 2", 'times2'), ("s.__copy__()", 'same')]
     if L:
         news += [("~s", 'inv'), ("s << 1", 'shl1'), ("s & s", 'same'), ("s | s", 'same'), ("s ^ s", 'zeros')]
+    # an EMPTY other operand: the result is still a new stream at 0 and the receiver keeps its position
+    news += [("s + ''", 'same'), ("s + bitstring.Bits()", 'same'), ("'' + s", 'same'), ("s * 1", 'same'), ("s + []", 'same'), ("bitstring.Bits() + s", 'same-bits')]
     news += [("list(s.cut(2))", 'cut2'), ("list(s.split('0b1'))", 'split1'), ("s.unpack('bits')", 'unpackbits'), ("'0b1' + s", 'rplus1')]
     for src, tag in (news if full else news[:3]):
         A(Event('newstream', (tag,), src, False))
@@ -411,6 +416,8 @@ def newstream_value(d, tag):
     inv = ''.join('1' if c == '0' else '0' for c in d)
     if tag == 'same':
         return B(d)
+    if tag == 'same-bits':
+        return ('bits', d, None) if False else B(d)
     if tag == 'slice13':
         return B(d[1:3])
     if tag == 'plus1':
